@@ -116,7 +116,9 @@ def load_known(pid):
 def shard_main(argv):
     pid, tier, seed, idx, nsh, out = argv[0], argv[1], int(argv[2]), int(argv[3]), int(argv[4]), argv[5]
     mod = load_prop(pid)
-    cases = mod.gen_cases(tier, seed)
+    cases_file = os.path.join(os.path.dirname(out), 'cases.json')
+    # the parent generates the case list once; the shards run under different PYTHONHASHSEED values and must agree on it
+    cases = json.load(open(cases_file)) if os.path.exists(cases_file) else mod.gen_cases(tier, seed)
     mine = [(i, c) for i, c in enumerate(cases) if i % nsh == idx]
     results = []
     budget = float(os.environ.get('SCMO_SHARD_BUDGET', '0') or 0)
@@ -136,6 +138,7 @@ def shard_main(argv):
                  'violations': [], 'harness_error': traceback.format_exc()[-3000:]}
         r['case_index'] = i
         r['case'] = c
+        r['hashseed'] = os.environ.get('PYTHONHASHSEED')
         r['wall'] = time.time() - t1
         results.append(r)
     with open(out, 'w') as f:
@@ -144,13 +147,13 @@ def shard_main(argv):
 
 # --------------------------------------------------------------------------- parent
 
-def write_replay(pid, seed, case, viol):
+def write_replay(pid, seed, case, viol, hashseed=None):
     os.makedirs(os.path.join(VERIF, 'replays'), exist_ok=True)
     name = f"{pid}-{viol['mech']}-{sha(case)}.json"
     name = ''.join(ch if ch.isalnum() or ch in '-_.' else '_' for ch in name)
     path = os.path.join(VERIF, 'replays', name)
     with open(path, 'w') as f:
-        json.dump({'property': pid, 'seed': seed, 'case': case, 'violation': viol}, f, indent=1, default=str)
+        json.dump({'property': pid, 'seed': seed, 'hashseed': hashseed, 'case': case, 'violation': viol}, f, indent=1, default=str)
     return path
 
 
@@ -173,6 +176,11 @@ def run_check(pid, tier, seed, replay=None):
     try:
         if replay:
             rp = json.load(open(replay))
+            if rp.get('hashseed') not in (None, os.environ.get('PYTHONHASHSEED')) and not os.environ.get('SCMO_REPLAY_REEXEC'):
+                # the case ran under this string-hash seed (set iteration order is part of the schedule): restart the interpreter with it
+                shutil.rmtree(runroot, ignore_errors=True)
+                os.execve(PY, [PY, '-c', 'from vlib.common import main; main()'] + sys.argv[1:],
+                          dict(os.environ, PYTHONHASHSEED=str(rp['hashseed']), SCMO_REPLAY_REEXEC='1'))
             case = rp['case']
             seed = rp.get('seed', seed)
             os.environ['SCMO_SCRATCH'] = runroot
@@ -184,6 +192,9 @@ def run_check(pid, tier, seed, replay=None):
             all_results.append(r)
         else:
             cases = mod.gen_cases(tier, seed)
+            with open(os.path.join(runroot, 'cases.json'), 'w') as f:
+                json.dump(cases, f)
+            cases = json.load(open(os.path.join(runroot, 'cases.json')))
             nsh = max(1, min(int(os.environ.get('SCMO_JOBS', '16')), len(cases)))
             timeout = getattr(mod, 'SHARD_TIMEOUT', {'quick': 600, 'thorough': 7200})[tier]
             procs = []
@@ -192,7 +203,7 @@ def run_check(pid, tier, seed, replay=None):
                 log = open(os.path.join(runroot, f'shard{i}.log'), 'w')
                 p = subprocess.Popen([PY, '-c', 'import sys; from vlib.common import shard_main; shard_main(sys.argv[1:])',
                                       pid, tier, str(seed), str(i), str(nsh), out],
-                                     env=env, cwd=runroot, stdout=log, stderr=subprocess.STDOUT,
+                                     env=dict(env, PYTHONHASHSEED=str((seed * 1000003 + i * 7919) % (2 ** 32))), cwd=runroot, stdout=log, stderr=subprocess.STDOUT,
                                      start_new_session=True)
                 procs.append((p, out, log, i))
             deadline = time.time() + timeout
@@ -234,7 +245,7 @@ def run_check(pid, tier, seed, replay=None):
         if r.get('harness_error'):
             harness_errors.append(f"case {r['case_index']}: {r['harness_error']}")
         for v in r.get('violations', []):
-            viols.append((r['case'], v))
+            viols.append((r['case'], dict(v, _hashseed=r.get('hashseed'))))
     nontrivial = len(sigs) + distinct
 
     lines = []
@@ -251,7 +262,7 @@ def run_check(pid, tier, seed, replay=None):
         lines.append(f"KNOWN-FINDING: property={pid} {mech}: {known[mech].get('what', '')} (observed {len(vs)}x this run)")
     for mech, cvs in seen_new.items():
         case, v = cvs[0]
-        path = replay or write_replay(pid, seed, case, v)
+        path = replay or write_replay(pid, seed, case, {k: x for k, x in v.items() if k != '_hashseed'}, v.get('_hashseed'))
         new_viol += len(cvs)
         lines.append(f"VIOLATION property={pid} replay={path}")
         lines.append(f"  mechanism={mech} count={len(cvs)} first: {v['msg'][:600]}")
@@ -283,6 +294,7 @@ def run_check(pid, tier, seed, replay=None):
                 'samples': samples,
                 'monitors': mon,
                 'cases_run': len(all_results),
+                'string_hash_seeds_observed': sorted(set(str(r.get('hashseed')) for r in all_results)),
                 'cases_skipped_for_budget': skipped,
                 'exhaustive': bool(getattr(mod, 'EXHAUSTIVE', {}).get(tier, False)),
                 'known_findings_observed': {k: len(v) for k, v in seen_known.items()},
